@@ -1029,7 +1029,8 @@ class Evaluator:
                 if isinstance(mnode, ast.FunctionDef) and key not in self._inlining:
                     self._inlining.append(key)
                     try:
-                        s = self.eval_funcnode(mnode, fr.module, key, cls=fr.cls, args=(fn[1],) + tuple(args), kwargs=kwargs)
+                        static = any(isinstance(d, ast.Name) and d.id == "staticmethod" for d in mnode.decorator_list)
+                        s = self.eval_funcnode(mnode, fr.module, key, cls=fr.cls, args=(() if static else (fn[1],)) + tuple(args), kwargs=kwargs)
                         self.absorb(fr, s)
                         return s.ret
                     finally:
@@ -1045,8 +1046,9 @@ class Evaluator:
                     if isinstance(mnode, ast.FunctionDef) and (dotted + "." + fn[2]) not in self._inlining:
                         self._inlining.append(dotted + "." + fn[2])
                         try:
+                            static = any(isinstance(d, ast.Name) and d.id == "staticmethod" for d in mnode.decorator_list)
                             s = self.eval_funcnode(mnode, cmod, dotted + "." + fn[2], cls=cnode.name,
-                                                   args=(base,) + tuple(args), kwargs=kwargs)
+                                                   args=(() if static else (base,)) + tuple(args), kwargs=kwargs)
                             return s.ret
                         finally:
                             self._inlining.pop()
